@@ -1,10 +1,11 @@
 import Gql.Proofs.SchemaBuild6
 import Gql.Proofs.SchemaSort2
 import Gql.Proofs.SchemaExt4
+import Gql.Proofs.SchemaExt9
 /-!
 # C19 — Schema transformations preserve meaning: extend equals build, sort only reorders
 
-Property theorems only (lemmas: `Gql/Proofs/SchemaDiff1-3`, `SchemaSort1-2`, `SchemaExt1-2`,
+Property theorems only (lemmas: `Gql/Proofs/SchemaDiff1-3`, `SchemaSort1-2`, `SchemaExt1-9`,
 `SchemaBuild1-6`).  Models: `Gql.Types.extendDefs` (`extend_schema`: `extend_schema_args` +
 `map_schema_config`), `Gql.Types.buildFromDefs` (`build_ast_schema`), `Gql.Types.sortSchema`
 (`lexicographic_sort_schema`, `natural_comparison_key`), `Gql.Types.changes`
@@ -84,24 +85,120 @@ theorem extend_extend (s a : Schema) (A B : List Def) (hA : A.all Def.isOther = 
     (v : ValidExt s (collect A) (collect B)) : extendDefs a B = extendDefs s (A ++ B) :=
   Gql.Types.extendCore_append s a A B hA hB ha v
 
-/-- C19-1, full statement: extending the schema built from `A` with `B` yields the same schema
-as building `A` and `B` together. -/
+/-- C19-1 read with `ValidExt` alone as "valid against it": extending the schema built from `A`
+with `B` yields the same schema as building `A` and `B` together.  **False** as it stands
+(`extend_eq_build_full_false`); true with `RootsStable` added (`extend_eq_build`), and only then
+(`extend_eq_build_exact`). -/
 def extend_eq_build_full : Prop :=
   ∀ (a : Schema) (A B : List Def), A.all Def.isOther = false → B.all Def.isOther = false →
     buildFromDefs A = .ok a → ValidExt Schema.empty (collect A) (collect B) →
     extendDefs a B = buildFromDefs (A ++ B)
 
-/-- C19-1, proved part: the full statement for every base document `A` that contains a schema
-definition (`schema { … }`).  Missing: base documents *without* a schema definition, where
-`build_ast_schema` picks the roots by the names `Query`/`Mutation`/`Subscription` over the whole
-of `A ++ B` while `extend_schema` keeps the roots of `build(A)`; there the two differ exactly when
-`B` defines a type with one of those names (observation O2 of the report), and equality otherwise
-is tied by the correspondence run only. -/
+/-- C19-1, first half: the full statement for every base document `A` that contains a schema
+definition (`schema { … }`); no root stability needed there.  Base documents *without* a schema
+definition — where `build_ast_schema` picks the roots by the names `Query`/`Mutation`/
+`Subscription` over the whole of `A ++ B` while `extend_schema` keeps the roots of `build(A)`
+(observation O2 of the report) — are `extend_eq_build_noschema`; both halves together are
+`extend_eq_build`, and `extend_eq_build_exact` shows the added hypothesis is the weakest possible. -/
 theorem extend_eq_build_partial (a : Schema) (A B : List Def) (hA : A.all Def.isOther = false)
     (hB : B.all Def.isOther = false) (hsd : (collect A).schemaDef.isSome = true)
     (ha : buildFromDefs A = .ok a) (v : ValidExt Schema.empty (collect A) (collect B)) :
     extendDefs a B = buildFromDefs (A ++ B) :=
   Gql.Types.extend_eq_build_of_schemaDef a A B hA hB hsd ha v
+
+/-- The base document of the counterexample: `type T { a: Int }` (no `Query`, no schema definition). -/
+def cexA : List Def := [.typeDef none ⟨[84], [], .object [] [⟨none, [97], [], .named [73, 110, 116], []⟩]⟩]
+/-- The extension document of the counterexample: `type Query { q: Int }`. -/
+def cexB : List Def :=
+  [.typeDef none ⟨Gql.Generated.SchemaConsts.queryName, [], .object [] [⟨none, [113], [], .named [73, 110, 116], []⟩]⟩]
+
+/-- C19-1, the full statement is **false** (observation O2, replayed on the implementation:
+`build_schema("type T {a: Int}\ntype Query {q: Int}").query_type` is `Query`,
+`extend_schema(build_schema("type T {a: Int}"), parse("type Query {q: Int}")).query_type` is
+`None`; `validate_sdl(B, build A)` is empty).  `build_ast_schema` infers the roots by name over the
+whole of `A ++ B`, `extend_schema` keeps the (absent) roots of `build(A)`; `ValidExt` holds. -/
+theorem extend_eq_build_full_false : ¬ extend_eq_build_full := by
+  intro h
+  have h1 := h _ cexA cexB (by decide) (by decide) rfl
+    ⟨by decide, by decide, by decide, by decide, by decide⟩
+  revert h1
+  decide
+
+/-- **Root stability** of the extension document `B` over the base document `A`: what "an
+extension document valid against it" has to mean beyond `ValidExt` for C19-1 to be meaningful.
+`A` contains a schema definition, or for each conventional root name `c` ∈ {`Query`, `Mutation`,
+`Subscription`}: when `B` has no `extend schema { op: … }` for that operation, `B` defines a
+type called `c` only if `A` already does; when it has one (the last one names `n`), `n = c` or
+neither document defines a type called `c`.  Decidable on the two documents
+(`Gql.Types.rootsStable`).
+
+Relation to the property text: the implementation's SDL validation (`validate_sdl(B, build A)`)
+accepts `B = type Query {…}` over a base without `Query` — validity alone does not imply root
+stability, and there `extend(build A, B) ≠ build(A ++ B)` (`extend_eq_build_full_false`,
+`extend_eq_build_iff`).  The property is therefore read (DESIGN §0.5 O2) over root-stable
+extension documents: `build_ast_schema`'s "look for types named Query, Mutation and
+Subscription" is a rule about *documents without a schema definition*, `extend_schema` works
+on a schema whose roots are already decided. -/
+def RootsStable (A B : List Def) : Prop := rootsStable A B = true
+
+instance (A B : List Def) : Decidable (RootsStable A B) := by unfold RootsStable; infer_instance
+
+/-- C19-1 for base documents **without** a schema definition: under root stability (here in its
+unfolded form, `rootsStableParts` over the type names `A` defines) extending the built schema
+equals building the concatenated document. -/
+theorem extend_eq_build_noschema (a : Schema) (A B : List Def) (hA : A.all Def.isOther = false)
+    (hB : B.all Def.isOther = false) (hsd : (collect A).schemaDef = none)
+    (ha : buildFromDefs A = .ok a) (v : ValidExt Schema.empty (collect A) (collect B))
+    (hst : rootsStableParts (definesType (collect A)) (collect B) = true) :
+    extendDefs a B = buildFromDefs (A ++ B) :=
+  Gql.Types.extend_eq_build_of_noSchemaDef a A B hA hB hsd ha v hst
+
+/-- **C19-1.** Extending the schema built from `A` with an extension document `B` valid against
+it (`ValidExt`) and root-stable over it (`RootsStable`) yields the same schema as building `A`
+and `B` together — for every base document, with or without a schema definition; outcomes
+compared include errors and crashes of `build(A ++ B)`. -/
+theorem extend_eq_build (a : Schema) (A B : List Def) (hA : A.all Def.isOther = false)
+    (hB : B.all Def.isOther = false) (ha : buildFromDefs A = .ok a)
+    (v : ValidExt Schema.empty (collect A) (collect B)) (hst : RootsStable A B) :
+    extendDefs a B = buildFromDefs (A ++ B) :=
+  Gql.Types.extend_eq_build_of_rootsStable a A B hA hB ha v hst
+
+/-- **C19-1, exact characterisation.** For an extension document `B` valid against the schema
+built from `A` (`ValidExt`) whose combined document builds, extending equals building together
+**if and only if** `B` is root-stable over `A`: `RootsStable` is not merely sufficient, it is the
+weakest condition under which the clause holds (so every valid, buildable pair outside it is a
+pair on which `extend_schema` and `build_ast_schema` disagree about a root — observation O2). -/
+theorem extend_eq_build_iff (a : Schema) (A B : List Def) (hA : A.all Def.isOther = false)
+    (hB : B.all Def.isOther = false) (ha : buildFromDefs A = .ok a)
+    (v : ValidExt Schema.empty (collect A) (collect B)) (hok : (buildFromDefs (A ++ B)).isOk = true) :
+    extendDefs a B = buildFromDefs (A ++ B) ↔ RootsStable A B := by
+  constructor
+  · intro heq
+    unfold RootsStable rootsStable
+    cases hsd : (collect A).schemaDef with
+    | some d => rfl
+    | none =>
+      simp only [Option.isSome_none, Bool.false_or]
+      exact Gql.Types.rootsStable_of_eq a A B hA hB hsd ha v hok heq
+  · exact extend_eq_build a A B hA hB ha v
+
+/-- **C19-1, exact characterisation without side condition.** For every extension document `B`
+valid against the schema built from `A` (`ValidExt`): extending equals building together if and
+only if `B` is root-stable over `A` or building `A ++ B` fails (then extending fails in the
+same way: same error, same crash class). -/
+theorem extend_eq_build_exact (a : Schema) (A B : List Def) (hA : A.all Def.isOther = false)
+    (hB : B.all Def.isOther = false) (ha : buildFromDefs A = .ok a)
+    (v : ValidExt Schema.empty (collect A) (collect B)) :
+    extendDefs a B = buildFromDefs (A ++ B) ↔
+      (RootsStable A B ∨ (buildFromDefs (A ++ B)).isOk = false) := by
+  constructor
+  · intro heq
+    cases hok : (buildFromDefs (A ++ B)).isOk with
+    | true => exact Or.inl ((extend_eq_build_iff a A B hA hB ha v hok).mp heq)
+    | false => exact Or.inr rfl
+  · rintro (h | h)
+    · exact extend_eq_build a A B hA hB ha v h
+    · exact Gql.Types.extend_eq_build_of_fail a A B hA hB ha v h
 
 /-- `extend_schema_args` collects from `A ++ B` what it collects from `A` and from `B`. -/
 theorem collect_append (A B : List Def) : collect (A ++ B) = Parts.merge (collect A) (collect B) :=
@@ -129,6 +226,42 @@ example : ∃ a, buildFromDefs exA = .ok a ∧ extendDefs a exB = buildFromDefs 
 
 example : ValidExt Schema.empty (collect exA) (collect exB) :=
   ⟨by decide, by decide, by decide, by decide, by decide⟩
+
+-- Non-vacuity of `extend_eq_build` without a schema definition: base `type Query {f: Int}  enum E {A}`;
+-- the extension document extends `Query`, adds `type Mutation {m: U}` together with
+-- `extend schema { mutation: Mutation }` (root-stable: the schema extension names the
+-- conventional type), a union and an object.
+def exA2 : List Def := [
+  .typeDef none ⟨[81, 117, 101, 114, 121], [], .object [] [⟨none, [102], [], .named [73, 110, 116], []⟩]⟩,
+  .typeDef (some ⟨[100], true⟩) ⟨[69], [], .enum [⟨none, [65], []⟩]⟩]
+def exB2 : List Def := [
+  .typeExt ⟨[81, 117, 101, 114, 121], [], .object [] [⟨none, [103], [], .named [69], []⟩]⟩,
+  .typeDef none ⟨[77, 117, 116, 97, 116, 105, 111, 110], [], .object [] [⟨none, [109], [], .named [85], []⟩]⟩,
+  .typeDef none ⟨[85], [], .union [[81, 117, 101, 114, 121], [77, 117, 116, 97, 116, 105, 111, 110]]⟩,
+  .schemaExt [] [(.mutation, [77, 117, 116, 97, 116, 105, 111, 110])]]
+
+example : (collect exA2).schemaDef = none ∧ RootsStable exA2 exB2 ∧
+    ValidExt Schema.empty (collect exA2) (collect exB2) :=
+  ⟨rfl, by decide, ⟨by decide, by decide, by decide, by decide, by decide⟩⟩
+
+example : ∃ a, buildFromDefs exA2 = .ok a ∧ extendDefs a exB2 = buildFromDefs (exA2 ++ exB2) ∧
+    (buildFromDefs (exA2 ++ exB2)).isOk = true ∧ extendDefs a exB2 ≠ .ok a :=
+  ⟨_, rfl, extend_eq_build _ exA2 exB2 (by decide) (by decide) rfl
+    ⟨by decide, by decide, by decide, by decide, by decide⟩ (by decide), by decide, by decide⟩
+
+-- the counterexample is on the other side of the condition; the documents of the first example are stable
+example : ¬ RootsStable cexA cexB := by decide
+example : RootsStable exA exB := by decide
+
+-- both sides of `extend_eq_build_iff` are inhabited: the combined documents build in both examples
+example : (buildFromDefs (cexA ++ cexB)).isOk = true ∧ (buildFromDefs (exA2 ++ exB2)).isOk = true := by decide
+
+-- the failing side of `extend_eq_build_exact`: `B` extends `Query` with a field of an unknown type
+-- (outside `RootsStable`-relevance: `build(A ++ B)` crashes, and so does `extend(build A, B)`)
+def exB3 : List Def := [.typeExt ⟨[81, 117, 101, 114, 121], [], .object [] [⟨none, [103], [], .named [90], []⟩]⟩]
+example : (buildFromDefs (exA2 ++ exB3)).isOk = false ∧
+    ValidExt Schema.empty (collect exA2) (collect exB3) :=
+  ⟨by decide, ⟨by decide, by decide, by decide, by decide, by decide⟩⟩
 
 -- the hypotheses of the sort / self-comparison theorems hold for the extended schema
 example : ∃ a, buildFromDefs (exA ++ exB) = .ok a ∧ WFSchema a = true ∧
